@@ -56,6 +56,11 @@ M_MAYBE = {'to': 'copy', 'astype': 'copy', 'transpose': None, 'flatten': None, '
 M_MUT = {'append', 'extend', 'update', 'add', 'insert', 'remove', 'clear', 'sort', 'pop', 'popitem', 'setdefault',
          'discard', 'reverse'}
 SCALAR_ATTRS = {'unit', 'dtype', 'dims', 'dim', 'sizes', 'shape', 'ndim', 'size', '__name__', '__class__'}
+# x.<attr> = v on a scipp Variable / DataArray does not rebind an attribute of the Python object x: it WRITES the storage x is a
+# handle of (values / variances buffer, and the unit, which sits next to the buffer) - so it is seen through every other
+# handle of that storage: the original of a shallow copy x = y.copy(deep=False), the variable a view was taken from.
+# Translated as an in-place write (SAug), not as a field store (validated by harness rows against the installed scipp).
+BUFFER_ATTRS = {'value', 'values', 'variance', 'variances', 'unit'}
 # attributes holding a callable model object: calling it dispatches to Model.__call__
 CALLABLE_ATTRS = {'_left': 'Model.__call__', '_right': 'Model.__call__', 'peak': 'Model.__call__',
                   'background': 'Model.__call__'}
@@ -1012,6 +1017,9 @@ class StmtMixin:
                     pname = hit[0].setters[t.attr].args.args[1].arg
                     return [f'SExpr {self.ecall(ctx, [k], [("self", f"(EVar {cq(ctx.self_name)})"), (pname, val)])}']
             ob = self.expr(ctx, t.value)
+            own = isinstance(t.value, ast.Name) and t.value.id == ctx.self_name and ctx.cls is not None
+            if t.attr in BUFFER_ATTRS and not own:       # (self.value = ... of an analysed class is an ordinary attribute)
+                return self.flush(ctx) + [f'SAug {ob} {val}']
             return self.flush(ctx) + [f'SSetField {ob} {cq(t.attr)} {val}']
         if isinstance(t, ast.Subscript):
             ob = self.expr(ctx, t.value)
